@@ -1278,6 +1278,71 @@ func runC03(c *core.Ctx) core.Meta {
 		}
 	}
 
+	// ---------------- R03.14 operand order of non-commutative instructions ----------------
+	st14 := c.Rule("R03.14", "subtractions and shifts take their operands in the order the mnemonic prescribes: sub / subb: S0 - S1, subrev / subbrev: S1 - S0; lshl / lshr / ashr: S0 shifted by S1, the …rev forms: S1 shifted by S0 (handlers tied to names through decode table -> dispatch switch -> callee; the first subtraction / shift whose two sides derive from different source operands is examined)", 30)
+	ordName := regexp.MustCompile(`^[sv]_(sub|subb|subrev|subbrev|lshl|lshr|ashr|lshlrev|lshrrev|ashrrev)_[a-z]*(16|32|64)?(_e32|_e64)?$`)
+	seen14 := map[string]bool{}
+	for _, h := range handlers {
+		for _, iname := range h.insts {
+			m := ordName.FindStringSubmatch(iname)
+			if m == nil || seen14[h.alu.pkg+"."+h.name+"|"+m[1]] {
+				continue
+			}
+			seen14[h.alu.pkg+"."+h.name+"|"+m[1]] = true
+			fn := c.SSAFunc(h.alu.pkg, h.alu.typ+"."+h.name)
+			if fn == nil {
+				continue
+			}
+			sideOf := func(v ssa.Value) string {
+				pv := prov.Of(v)
+				has0, has1 := strings.Contains(pv, ".Src0"), strings.Contains(pv, ".Src1")
+				switch {
+				case has0 && !has1:
+					return "S0"
+				case has1 && !has0:
+					return "S1"
+				}
+				return ""
+			}
+			isShift := strings.Contains(m[1], "sh")
+			wantLeft := "S0"
+			if strings.HasSuffix(m[1], "rev") {
+				wantLeft = "S1"
+			}
+			found := false
+			for _, b := range fn.Blocks {
+				for _, in := range b.Instrs {
+					bo, ok := in.(*ssa.BinOp)
+					if !ok || found {
+						continue
+					}
+					if isShift && bo.Op != token.SHL && bo.Op != token.SHR {
+						continue
+					}
+					if !isShift && bo.Op != token.SUB {
+						continue
+					}
+					l, r := sideOf(bo.X), sideOf(bo.Y)
+					if l == "" || r == "" || l == r {
+						continue
+					}
+					found = true
+					st14.Instances++
+					c.MarkAnalysed(fn)
+					ok2 := l == wantLeft
+					st14.Ob(ok2)
+					st14.Sample("%s.%s (%s): %s %s %s", h.alu.typ, h.name, iname, l, bo.Op, r)
+					if !ok2 {
+						c.ReportAt("R03.14", fn, in.Pos(), "operand-order:"+m[1], fmt.Sprintf("%s computes %s %s %s; %s prescribes %s on the left", h.name, l, bo.Op, r, iname, wantLeft))
+					}
+				}
+			}
+			if !found {
+				st14.Sample("%s.%s (%s): no subtraction / shift between the two source operands recognised; not modelled", h.alu.typ, h.name, iname)
+			}
+		}
+	}
+
 	// ---------------- R03.2 shift-amount masking ----------------
 	st2 := c.Rule("R03.2", "in handlers of shift instructions (tied to their names through decode table -> dispatch switch -> callee) every data-dependent shift amount is confined to [0, W-1] (W from the instruction name) by a mask or modulus before it reaches the Go shift, because Go saturates where the ISA uses the low 4/5/6 bits", 15)
 	seenH := map[string]bool{}
